@@ -44,11 +44,14 @@ type topicModel struct {
 	maybe    map[uint16]bool       // ids possibly allocated but not (yet) confirmed: don't-care
 	rejected map[uint16]string     // ids of gateway REGISTERs the client refused: they denote nothing
 	refused  map[string]int        // topic name -> seq of the client's refusing REGACK
+	gwRegN    map[uint32]int    // outstanding gateway REGISTERs per (msgID, TopicID)
+	gwRegTid  map[uint16]int    // outstanding gateway REGISTERs per TopicID
+	gwRegName map[uint16]string // TopicID -> name of the gateway's latest REGISTER for it
 }
 
 func newTopicModel(pre Predef) *topicModel {
 	return &topicModel{pre: pre, definite: map[uint16]string{}, pendReg: map[uint16]string{}, pendSub: map[uint16]*snref.Pkt{},
-		gwReg: map[uint32]*snref.Pkt{}, handed: map[uint16]string{}, maybe: map[uint16]bool{}, rejected: map[uint16]string{}, refused: map[string]int{}}
+		gwReg: map[uint32]*snref.Pkt{}, gwRegN: map[uint32]int{}, gwRegTid: map[uint16]int{}, gwRegName: map[uint16]string{}, handed: map[uint16]string{}, maybe: map[uint16]bool{}, rejected: map[uint16]string{}, refused: map[string]int{}}
 }
 
 // TopicModel is the exported view of the reference registration model, for adaptive workload generators.
@@ -129,6 +132,9 @@ func (m *topicModel) feed(it Item) {
 		case snref.SUBSCRIBE:
 			m.pendSub[p.MsgID] = p
 		case snref.REGACK:
+			// The gateway may have several REGISTERs outstanding that carry the same (message ID, TopicID)
+			// - e.g. its own message ID for a QoS 0 message and the broker's identical one for a QoS 1/2
+			// message on the same new name - so the outstanding ones are counted, not merely flagged.
 			key := uint32(p.MsgID)<<16 | uint32(p.TopicID)
 			r, ok := m.gwReg[key]
 			if !ok && p.RC != 0 && p.TopicID == 0 {
@@ -140,18 +146,36 @@ func (m *topicModel) feed(it Item) {
 				}
 			}
 			if ok {
-				delete(m.gwReg, key)
+				m.gwRegN[key]--
+				if m.gwRegN[key] <= 0 {
+					delete(m.gwReg, key)
+					delete(m.gwRegN, key)
+				}
+				m.gwRegTid[r.TopicID]--
 				if p.RC == 0 {
 					m.definite[r.TopicID] = r.Name
 					delete(m.maybe, r.TopicID)
 					delete(m.rejected, r.TopicID)
 				} else {
+					m.refused[r.Name] = it.Seq
+					if m.gwRegTid[r.TopicID] > 0 {
+						// another REGISTER of this TopicID is still unanswered: the client may accept that one
+						break
+					}
 					// the client refused the registration: the ID denotes nothing (unless confirmed otherwise)
 					delete(m.maybe, r.TopicID)
 					if _, ok := m.definite[r.TopicID]; !ok {
 						m.rejected[r.TopicID] = r.Name
 					}
-					m.refused[r.Name] = it.Seq
+				}
+			} else if p.RC == 0 {
+				// an accepting REGACK that matches no outstanding REGISTER of the model (a duplicate, or the
+				// model consumed the entry for a REGACK that the gateway attributed to a twin REGISTER): the
+				// client has accepted a REGISTER of this TopicID, so it knows the name the gateway registered
+				if n, ok := m.gwRegName[p.TopicID]; ok {
+					m.definite[p.TopicID] = n
+					delete(m.maybe, p.TopicID)
+					delete(m.rejected, p.TopicID)
 				}
 			}
 		}
@@ -174,7 +198,13 @@ func (m *topicModel) feed(it Item) {
 				}
 			}
 		case snref.REGISTER:
-			m.gwReg[uint32(p.MsgID)<<16|uint32(p.TopicID)] = p
+			// (REGISTER has no DUP flag: a retransmission counts as one more outstanding REGISTER, which only
+			// makes the model more cautious - a later refusal then leaves the ID undecided instead of rejected)
+			k := uint32(p.MsgID)<<16 | uint32(p.TopicID)
+			m.gwReg[k] = p
+			m.gwRegN[k]++
+			m.gwRegTid[p.TopicID]++
+			m.gwRegName[p.TopicID] = p.Name
 			m.maybe[p.TopicID] = true
 		}
 	}
